@@ -6,7 +6,7 @@ use clap_complete::aot::{generate, Shell};
 use std::io::Write as _;
 
 #[derive(Clone, Debug)]
-struct GA { id: String, short: Option<char>, long: Option<String>, vshorts: Vec<char>, vlongs: Vec<String>, takes: bool, positional: bool, pvs: Vec<(String, bool)>, hint: u8 }
+struct GA { id: String, short: Option<char>, long: Option<String>, vshorts: Vec<char>, vlongs: Vec<String>, takes: bool, positional: bool, pvs: Vec<(String, bool)>, hint: u8, global: bool }
 #[derive(Clone, Debug)]
 struct GN { name: String, aliases: Vec<String>, args: Vec<GA>, subs: Vec<GN> }
 
@@ -39,7 +39,8 @@ fn gen_gn(rng: &mut Rng, depth: usize, idx: &mut usize, collide: bool, odd: bool
         let vshorts = if short.is_some() && rng.chance(1, 4) { vec![shorts.remove(rng.below(shorts.len()))] } else { vec![] };
         let vlongs = if long.is_some() && rng.chance(1, 3) { vec![format!("o{i}x-alias")] } else { vec![] };
         let pvs = if takes && rng.chance(1, 3) { (0..1 + rng.below(3)).map(|j| (format!("pv{i}v{j}"), rng.chance(1, 5))).collect() } else { vec![] };
-        args.push(GA { id: format!("arg{i}"), short, long, vshorts, vlongs, takes, positional, pvs, hint: if takes { rng.below(5) as u8 } else { 0 } });
+        let global = !positional && long.is_some() && short.is_none() && depth <= 1 && rng.chance(1, 6);
+        args.push(GA { id: format!("arg{i}"), short, long, vshorts, vlongs, takes, positional, pvs, hint: if takes { rng.below(5) as u8 } else { 0 }, global });
     }
     let nsubs = if depth >= 3 { 0 } else { match rng.below(4) { 0 => 0, 1 => 1, 2 => 2, _ => 3 } };
     let mut subs = vec![];
@@ -66,6 +67,7 @@ fn build(n: &GN) -> Command {
         for l in &a.vlongs { x = x.visible_alias(l.clone()); }
         x = if a.takes { x.action(ArgAction::Set) } else { x.action(ArgAction::SetTrue) };
         if !a.pvs.is_empty() { x = x.value_parser(a.pvs.iter().map(|(n, h)| PossibleValue::new(n.clone()).hide(*h)).collect::<Vec<_>>()); }
+        if a.global { x = x.global(true); }
         x = match a.hint { 1 => x.value_hint(ValueHint::FilePath), 2 => x.value_hint(ValueHint::DirPath), 3 => x.value_hint(ValueHint::Other), 4 => x.value_hint(ValueHint::Hostname), _ => x };
         c = c.arg(x);
     }
@@ -124,8 +126,10 @@ fn paths<'a>(n: &'a GN, prefix: &mut Vec<String>, out: &mut Vec<(Vec<String>, &'
     for s in &n.subs { prefix.push(s.name.clone()); paths(s, prefix, out); prefix.pop(); }
 }
 
-fn level_words(n: &GN, built_has_help_sub: bool) -> Vec<String> {
+fn level_words(n: &GN, inherited: &[GA], built_has_help_sub: bool) -> Vec<String> {
     let mut w = vec![];
+    // global args of the levels above are propagated into this level
+    for a in inherited { if !n.args.iter().any(|x| x.id == a.id) { if let Some(s) = a.short { for x in &a.vshorts { w.push(format!("-{x}")); } w.push(format!("-{s}")); } if let Some(l) = &a.long { for x in &a.vlongs { w.push(format!("--{x}")); } w.push(format!("--{l}")); } } }
     for a in n.args.iter().filter(|a| !a.positional) { if let Some(s) = a.short { for x in &a.vshorts { w.push(format!("-{x}")); } w.push(format!("-{s}")); } }
     w.push("-h".into());
     for a in n.args.iter().filter(|a| !a.positional) { if let Some(l) = &a.long { for x in &a.vlongs { w.push(format!("--{x}")); } w.push(format!("--{l}")); } }
@@ -150,7 +154,7 @@ pub fn run(o: &Opts) -> Report {
         let mut tree = gen_gn(&mut rng, 0, &mut idx, collide, odd, &mut used);
         if collide && rng.chance(1, 2) {
             // the shape whose mangled paths coincide: sibling `a-b` next to a nested `a` -> `b`
-            let leaf = |name: &str, i: usize| GN { name: name.into(), aliases: vec![], args: vec![GA { id: format!("carg{i}"), short: None, long: Some(format!("col{i}x-long")), vshorts: vec![], vlongs: vec![], takes: false, positional: false, pvs: vec![], hint: 0 }], subs: vec![] };
+            let leaf = |name: &str, i: usize| GN { name: name.into(), aliases: vec![], args: vec![GA { id: format!("carg{i}"), short: None, long: Some(format!("col{i}x-long")), vshorts: vec![], vlongs: vec![], takes: false, positional: false, pvs: vec![], hint: 0, global: false }], subs: vec![] };
             let (x, y) = *rng.pick(&[("a", "b"), ("b", "a"), ("a-b", "a")]);
             let mut nested = leaf(x, 1); nested.subs.push(leaf(y, 2));
             tree.subs.retain(|s| s.name != x && s.name != format!("{x}-{y}") && !s.aliases.contains(&x.to_string()) && !s.aliases.contains(&format!("{x}-{y}")));
@@ -170,6 +174,18 @@ pub fn run(o: &Opts) -> Report {
                 Ok((a, b)) => { if a != b { rep.oracle_fail("generator-nondeterministic", &format!("{key0} shell={shell}"), "two runs differ"); } scripts.insert(shell, a); }
             }
             rep.count(&format!("scripts_{shell}"));
+        }
+        // nushell: every completer a parameter refers to is defined in the script
+        if let Some(nu) = scripts.get("nu") {
+            let mut from = 0;
+            while let Some(p) = nu[from..].find("@\"nu-complete ") {
+                let st = from + p + 2;
+                let en = st + nu[st..].find('"').unwrap_or(0);
+                let name = &nu[st..en];
+                if !nu.contains(&format!("def \"{name}\"")) { rep.oracle_fail("nu-dangling-completer-reference", &format!("{key0} shell=nu"), &format!("`@\"{name}\"` is referenced but never defined")); }
+                rep.count("nu_completer_refs");
+                from = en;
+            }
         }
         // mentions (unique-token trees only)
         let mut all = vec![]; paths(&tree, &mut vec![], &mut all);
@@ -233,7 +249,8 @@ pub fn run(o: &Opts) -> Report {
         for (path, node) in &all {
             let mut spell = vec![]; alias_paths(&tree, path, 0, vec![], &mut spell);
             for sp in spell.iter().take(3) {
-                let words_of_level = level_words(node, true);
+                let mut inherited: Vec<GA> = vec![]; { let mut cur = &tree; for nm in path.iter() { inherited.extend(cur.args.iter().filter(|a| a.global).cloned()); cur = cur.subs.iter().find(|s| &s.name == nm).unwrap(); } }
+                let words_of_level = level_words(node, &inherited, true);
                 let child_names: Vec<String> = node.subs.iter().flat_map(|s| std::iter::once(s.name.clone()).chain(s.aliases.iter().cloned())).chain(["help".to_string()]).collect();
                 let mut curs: Vec<String> = vec!["".into(), "-".into(), "--".into(), "--o".into(), "zz".into()];
                 if let Some(c) = node.subs.first() { if c.name.len() > 1 { curs.push(c.name[..c.name.len() - 1].to_string()); curs.push(c.name[..1].to_string()); } }
